@@ -64,6 +64,28 @@ func checkC08(c *Ctx) {
 	}
 	r.Floor("C08/PAIR/classify", "mem add sites", nAdd, 1)
 	r.Floor("C08/PAIR/classify", "mem remove sites", nRem, 1)
+	// order of the two notifications inside one operation: removals first. If the enforcer
+	// hears of the new message while a message the same operation already evicted is still on
+	// its books, it sees the store over the limit and evicts a live message that fits.
+	r.Rule("C08/PAIR/order", "in an operation that both adds a message and removes others (cap eviction), every enforcerRemove of a removed message precedes enforcerDeliver of the added one: no enforcerRemove is reachable after enforcerDeliver")
+	nOrd := 0
+	for _, fn := range pkgFuncs(p, "pkg/storage/mem") {
+		fn := fn
+		eng.EachInstr(fn, func(in ssa.Instruction) {
+			call, ok := in.(*ssa.Call)
+			if !ok || eng.StaticCallee(call.Common()) != pm.enforcerDlv {
+				return
+			}
+			nOrd++
+			cons := "deliver@" + shortFn(fn)
+			if late := (&eng.Search{Target: pm.enforcerRemovePred()}).After(in); late != nil {
+				r.Bad("C08/PAIR/order", cons, p.InstrPos(late), "enforcerRemove of a message this operation removed is reachable after enforcerDeliver (%s) of the message it added: with a cap and a size limit together the enforcer, still counting the evicted message, evicts the next-oldest live message although the store is within its limit", p.InstrPos(in))
+			} else {
+				r.Ok("C08/PAIR/order", cons, p.InstrPos(in), "no removal is reported to the enforcer after the delivery")
+			}
+		})
+	}
+	r.Floor("C08/PAIR/order", "enforcerDeliver call sites", nOrd, 1)
 
 	c.c08Enforcer(pm)
 	c.c08Cap(pm)
